@@ -7,6 +7,7 @@ Require Import IW.UT.Xstr IW.UT.Xstr_proofs IW.UT.Avl IW.UT.Avl_proofs IW.UT.Poo
 Require Import IW.UT.Plist IW.UT.Plist_proofs.
 Require Import IW.UT.Pforest IW.UT.Pforest_proofs.
 Require Import IW.UT.Hmap_own_proofs IW.UT.Hmap_iter_proofs.
+Require Import IW.UT.Hmap_af IW.UT.Hmap_af_proofs IW.UT.Hmap_afsim_proofs.
 Require Import IW.UT.Rb_ring_proofs.
 Require Import IW.UT.AvlWalk IW.UT.AvlWalk_proofs.
 Require Import IW.UT.ListSort_proofs IW.UT.Plist_own_proofs IW.UT.Sarr_run_proofs.
@@ -260,6 +261,126 @@ Example C18_hmap_dll_example :
   (h_first Z m, h_last Z m, map fst (h_heap Z m), lru_ids Z (ents Z (h_bkts Z m))) =
     (Some 3%nat, Some 2%nat, [2; 3; 4]%nat, [2; 4; 3]%nat).
 Proof. vm_compute. split; reflexivity. Qed.
+
+(* ---------------------------------------------------------------- hash map: allocation failure as an oracle parameter *)
+(* Hmap_af.v threads an allocation oracle (a function of the history of allocation sites) through every allocation site
+   of iwhmap.c.  With the oracle that never fails the map under the oracle IS the map of Hmap.v - same answers, rc = 0
+   everywhere, same state, for every call sequence and both variants of the failure paths: every theorem above is a
+   theorem about the oracle model with `nofail`. *)
+Theorem C18_hmap_af_nofail : forall (K : Type) (keq : K -> K -> bool) (hashf : K -> Z) (code : bool)
+  (ops : list (hop K)) (a : amap K), a_dang K a = nil ->
+  map fst (a_run K keq hashf nofail code a ops) = h_run K keq hashf (a_m K a) ops /\
+  Forall (fun o => snd o = true) (a_run K keq hashf nofail code a ops) /\
+  a_m K (a_exec K keq hashf nofail code a ops) = h_exec K keq hashf (a_m K a) ops.
+Proof. exact af_nofail. Qed.
+Print Assumptions C18_hmap_af_nofail.
+
+(* The repaired `fail:` path of _rehash (fixes/cont-hmap-rehash-fail.diff): for EVERY oracle the call either rehashes
+   exactly as Hmap.rehash or returns the map unchanged; no bucket dangles, no array leaks, no value is lost. *)
+Theorem C18_hmap_rehash_f_repaired : forall (K : Type) (keq : K -> K -> bool) (orc : oracle) (a : amap K) (num : Z),
+  let a' := rehash_f K keq orc false a num in
+  (a_m K a' = a_m K a \/ a_m K a' = rehash K keq (a_m K a) num) /\
+  a_dang K a' = a_dang K a /\ a_leak K a' = a_leak K a /\ a_lost K a' = a_lost K a.
+Proof. exact rehash_f_repaired. Qed.
+Print Assumptions C18_hmap_rehash_f_repaired.
+
+(* THE CODE (finding cont-hmap-rehash-fail): u32 map, put 1..63, then put 64 (-> _rehash(128)) with the 20th realloc of
+   the copy loop failing (`hm failat 20 readd`): every call answers rc = 0, 15 live buckets keep released entry arrays,
+   19 arrays of the abandoned table leak, the lookup of key 37 reads released memory, destroy releases the arrays again.
+   The repaired code on the same calls and the same oracle: nothing dangles or leaks, get 37 = 137, still 64 buckets. *)
+Theorem C18_hmap_rehash_fail_refuted :
+  let run (code : bool) := a_exec Z Z.eqb hash_u32 (fail_nth SReadd 20) code (a_init Z (hnew Z None true) nil) rf_ops in
+  Forall (fun o => snd o = true) (a_run Z Z.eqb hash_u32 (fail_nth SReadd 20) true (a_init Z (hnew Z None true) nil) rf_ops) /\
+  length (a_dang Z (run true)) = 15%nat /\ a_leak Z (run true) = 19%Z /\ h_fault Z (a_m Z (run true)) = false /\
+  h_fault Z (a_m Z (fst (hget_f Z Z.eqb hash_u32 (fail_nth SReadd 20) (run true) 37%Z))) = true /\
+  h_fault Z (a_m Z (hdestroy_f Z (run true))) = true /\
+  a_dang Z (run false) = nil /\ a_leak Z (run false) = 0%Z /\
+  h_fault Z (a_m Z (fst (hget_f Z Z.eqb hash_u32 (fail_nth SReadd 20) (run false) 37%Z))) = false /\
+  snd (hget_f Z Z.eqb hash_u32 (fail_nth SReadd 20) (run false) 37%Z) = 137%Z /\
+  h_fault Z (a_m Z (hdestroy_f Z (run false))) = false /\
+  h_mask Z (a_m Z (run false)) = 63%Z /\ h_count Z (a_m Z (run false)) = 64%Z.
+Proof. exact hmap_rehash_fail_refuted. Qed.
+Print Assumptions C18_hmap_rehash_fail_refuted.
+
+(* THE CODE (finding cont-hmap-rename-fail): iwhmap_rename whose _entry_add(key_new) fails after _entry_remove(key_old)
+   drops the value - it is neither stored nor reported to kv_free_fn; the repaired code reports it. *)
+Theorem C18_hmap_rename_fail_refuted :
+  let ops := [HPut Z 1 11; HRename Z 1 2]%Z in
+  let a0 := a_init Z (hnew Z None true) nil in
+  map snd (a_run Z Z.eqb hash_u32 (fail_nth SAdd 2) true a0 ops) = [true; false] /\
+  a_lost Z (a_exec Z Z.eqb hash_u32 (fail_nth SAdd 2) true a0 ops) = [11]%Z /\
+  map fst (a_run Z Z.eqb hash_u32 (fail_nth SAdd 2) true a0 ops) = [OPut Z 1 [(None, 0)]; ORename Z 0 [(None, 0)]]%Z /\
+  a_lost Z (a_exec Z Z.eqb hash_u32 (fail_nth SAdd 2) false a0 ops) = nil /\
+  map fst (a_run Z Z.eqb hash_u32 (fail_nth SAdd 2) false a0 ops) = [OPut Z 1 [(None, 0)]; ORename Z 0 [(None, 0); (None, 11)]]%Z.
+Proof. exact hmap_rename_fail_refuted. Qed.
+Print Assumptions C18_hmap_rename_fail_refuted.
+
+(* THE REPAIRED CODE UNDER EVERY ALLOCATION ORACLE.  For every key type, hash function, oracle (any function of the
+   history of allocation sites), LRU bound and call sequence there are failure flags - one pair per call: "the call's own
+   _entry_add failed" and "the LRU node could not be allocated" - such that the map answers exactly like the association
+   list + recency list specification with these flags: same values, counts, rc (a put / rename whose _entry_add failed
+   answers rc != 0), same free-callback log (iteration and clear log as multisets).  In the specification a failed put
+   changes nothing, a failed rename has removed key_old and reported the value to kv_free_fn(0, val), a failed node
+   allocation leaves the key out of the recency list; failures of _rehash (calloc or any realloc of the copy loop), of the
+   step realloc of _entry_remove and of the realloc of iwhmap_clear are invisible. *)
+Theorem C18_hmap_af_refines : forall (K : Type) (keq : K -> K -> bool) (hashf : K -> Z),
+  (forall a b : K, keq a b = true <-> a = b) ->
+  forall (orc : oracle) (max : option Z) (ikp : bool) (hist : list site) (ops : list (hop K)),
+  exists fls : list aflag, length fls = length ops /\
+    Forall2 (aout_equiv K) (a_run K keq hashf orc false (a_init K (hnew K max ikp) hist) ops)
+                           (s_run_a K keq fls (s_new K max ikp) ops).
+Proof. exact af_refines_new. Qed.
+Print Assumptions C18_hmap_af_refines.
+
+(* ... and every state it reaches satisfies the invariant of C18_dll_wf: one list explains first/last/prev/next, the
+   node heap is that list, entries' nodes = the list, node keys = entry keys, NO released memory was touched (h_fault),
+   count = number of entries; no bucket dangles, no array leaked, no value was lost. *)
+Theorem C18_hmap_af_invariant : forall (K : Type) (keq : K -> K -> bool) (hashf : K -> Z),
+  (forall a b : K, keq a b = true <-> a = b) ->
+  forall (orc : oracle) (max : option Z) (ikp : bool) (hist : list site) (ops : list (hop K)),
+  let a := a_exec K keq hashf orc false (a_init K (hnew K max ikp) hist) ops in
+  exists L : list nat,
+    dll K (a_m K a) L /\ Permutation (lru_ids K (ents K (h_bkts K (a_m K a)))) L /\
+    (forall (e : entry K) (n : nat), In e (ents K (h_bkts K (a_m K a))) -> e_lru K e = Some n ->
+       nkey K (h_heap K (a_m K a)) n = Some (e_key K e)) /\
+    h_fault K (a_m K a) = false /\ h_count K (a_m K a) = Z.of_nat (length (ents K (h_bkts K (a_m K a)))) /\
+    a_dang K a = nil /\ a_leak K a = 0%Z /\ a_lost K a = nil.
+Proof. exact af_invariant. Qed.
+Print Assumptions C18_hmap_af_invariant.
+
+(* A put that answers rc != 0 has left the map literally unchanged (key and value stay with the caller). *)
+Theorem C18_hmap_af_put_fail_unchanged : forall (K : Type) (keq : K -> K -> bool) (hashf : K -> Z) (orc : oracle)
+  (a : amap K) (k : K) (v : Z), a_dang K a = nil ->
+  snd (hput_f K keq hashf orc false a k v) = false ->
+  a_m K (fst (hput_f K keq hashf orc false a k v)) = a_m K a /\ quiet K a (fst (hput_f K keq hashf orc false a k v)).
+Proof. exact put_fail_unchanged. Qed.
+Print Assumptions C18_hmap_af_put_fail_unchanged.
+
+(* Freed exactly once, failures included: the non-null values of the puts that answered rc = 0 are, as a multiset, the
+   values reported to kv_free_fn plus the values still held. *)
+Theorem C18_hmap_af_freed_exactly_once : forall (K : Type) (keq : K -> K -> bool) (hashf : K -> Z),
+  (forall a b : K, keq a b = true <-> a = b) ->
+  forall (orc : oracle) (max : option Z) (ikp : bool) (hist : list site) (ops : list (hop K)),
+  let a0 := a_init K (hnew K max ikp) hist in
+  let outs := a_run K keq hashf orc false a0 ops in
+  Permutation (nz (puts_ok K ops outs))
+    (nz (freed K (map fst outs) ++ map snd (hiter K (a_m K (a_exec K keq hashf orc false a0 ops))))).
+Proof. exact af_freed_exactly_once. Qed.
+Print Assumptions C18_hmap_af_freed_exactly_once.
+
+(* a run of the repaired code with three failures: the 2nd _entry_add of a put (rc != 0, nothing changes), the first LRU
+   node (key 1 never enters the recency list), and the _entry_add of a rename (entry gone, value 13 reported) *)
+Example C18_hmap_af_example :
+  let orc : oracle := fun h => match h with
+                               | SAdd :: t => Nat.eqb (length (filter (is_site SAdd) h)) 2 || Nat.eqb (length (filter (is_site SAdd) h)) 5
+                               | SNode :: t => Nat.eqb (length (filter (is_site SNode) h)) 1
+                               | _ => false end in
+  a_run Z Z.eqb hash_u32 orc false (a_init Z (hnew Z (Some 5%Z) true) nil)
+    [HPut Z 1 11; HPut Z 2 12; HPut Z 2 12; HPut Z 3 13; HLru Z; HRename Z 3 4; HCount Z; HGet Z 1; HLru Z]%Z
+  = [(OPut Z 1 [(None, 0)], true); (OPut Z 1 [], false); (OPut Z 2 [(None, 0)], true); (OPut Z 3 [(None, 0)], true);
+     (OLru Z [2; 3] true, true); (ORename Z 2 [(None, 0); (None, 13)], false); (OCount Z 2, true);
+     (OGet Z 11 2 [], true); (OLru Z [2; 1] true, true)]%Z.
+Proof. vm_compute. reflexivity. Qed.
 
 (* ================================================================ unit list (iwulist, byte level) *)
 Theorem C18_ulist_refines_list : forall (il us : nat) (ops : list uop),
